@@ -52,7 +52,11 @@ func runChildExe(r *vf.Run, exe, label string, env ...string) {
 	out := filepath.Join(vf.ScratchDir(), "child-"+r.ID+"-"+label)
 	_ = os.MkdirAll(out, 0o755)
 	defer os.RemoveAll(out)
-	cmd := exec.Command(exe, r.ID, r.Tier)
+	tier := r.Tier
+	if label == "goarch-386" {
+		tier = "quick" // the other target is about the environment, not about depth
+	}
+	cmd := exec.Command(exe, r.ID, tier)
 	cmd.Env = append(append(os.Environ(), "VERIF_CHILD=1", "VERIF_OUT="+out, fmt.Sprintf("VERIF_SEED=%d", r.Seed)), env...)
 	b, err := cmd.CombinedOutput()
 	r.Eval(1)
